@@ -128,8 +128,18 @@ def run_sequential(case):
                 # a Loader is a fresh wrapper per creation: identity of the wrapper matters too
                 wrappers = {}
 
+                # look-ups of the configured default loader are made both ways a run reaches it:
+                # by its name and implicitly (loader=None -> config.default_loader)
+                implicit = set(case.get('implicit', []))
+                nget = [0]
+                if case.get('default'):
+                    extra['saved_default_loader'] = config.default_loader
+                    config.default_loader = case['default']
+
                 def do_get(p, n):  # noqa
-                    o = getter(n)
+                    k = nget[0]
+                    nget[0] += 1
+                    o = getter(None if (k in implicit and n == case.get('default')) else n)
                     i = idx(o)
                     if i in wrappers and wrappers[i] is not o:
                         extra.setdefault('wrapper_identity_lost', []).append(n)
@@ -172,6 +182,8 @@ def run_sequential(case):
     finally:
         ml.get_module = saved_get_module
         config.no_cache = saved_nc
+        if 'saved_default_loader' in extra:
+            config.default_loader = extra.pop('saved_default_loader')
     return {'events': rec.events, 'status': 'ok', 'unfinished': [], 'anomalies': [],
             'n_objs': len(rec.objs), 'extra': extra}
 
